@@ -156,3 +156,123 @@ def swap_sizing(res, model):
                   "swap size and resulting values for a target ratio using part of the balance")
     formula_check(res, model, "uniswap.liquitidy_math.estimate_ratio", REF_ESTIMATE_RATIO, "token0/token1 amount ratio inside the range")
     return len(res.obligations) - n0
+
+
+# ---- identity of tokens, numeric coercion, enums -------------------------------------------------------------------
+REF_TOKEN_EQ = '''
+def __eq__(self, other):
+    if isinstance(other, TokenInfo):
+        return self.name == other.name
+    return False
+'''
+REF_TOKEN_HASH = '''
+def __hash__(self):
+    return self.name.__hash__()
+'''
+REF_TOKEN_INIT = '''
+def __init__(self, name, decimal, address=""):
+    self.name = name.upper()
+    self.decimal = decimal
+    self.address = address.lower()
+'''
+REF_TO_DECIMAL = '''
+def to_decimal(value):
+    return Decimal(str(value))
+'''
+REF_OBJECT_TO_DECIMAL = '''
+def object_to_decimal(num):
+    if isinstance(num, float) or type(num) == int:
+        return Decimal(str(num))
+    return num
+'''
+
+
+def token_identity(res, model):
+    """Tokens are compared and hashed BY NAME (upper-cased): `quote_token == token0` decides a pool's orientation, wallets
+    and price frames are keyed by tokens built independently (with or without an address)."""
+    from ..vn import Evaluator
+    n0 = len(res.obligations)
+    cls = model.cls("TokenInfo")
+    for meth, ref, what in (("__eq__", REF_TOKEN_EQ, "token equality is equality of names"),
+                            ("__hash__", REF_TOKEN_HASH, "token hash is the hash of the name"),
+                            ("__init__", REF_TOKEN_INIT, "token names are upper-cased, addresses lower-cased")):
+        f = cls.methods.get(meth)
+        if f is None:
+            res.ob("R-FORMULA", f"TokenInfo.{meth}: {what}", cls.module.relpath, ok=False)
+            res.find("R-FORMULA", f"TokenInfo.{meth}", f"TokenInfo.{meth} is not defined", cls.module.relpath,
+                     f"TokenInfo no longer defines {meth}: {what} is what orientation tests (`quote_token == token0`), wallet keys and "
+                     f"price columns rely on; the generated / inherited {meth} compares other fields or identities")
+            continue
+        if meth == "__init__":
+            effects_check(res, model, "TokenInfo.__init__", ref, what, [])
+        else:
+            formula_check(res, model, f"TokenInfo.{meth}", ref, what)
+    return len(res.obligations) - n0
+
+
+def numeric_coercion(res, model):
+    """float -> Decimal goes through str() (shortest repr, no binary noise, no fixed number of places): the decorator
+    float_param_formatter applies object_to_decimal to every argument of the public operations."""
+    n0 = len(res.obligations)
+    # BUILTIN_IDENTITY would make to_decimal/object_to_decimal transparent: compare their bodies explicitly
+    formula_check(res, model, "utils.application.to_decimal", REF_TO_DECIMAL, "to_decimal(x) = Decimal(str(x))")
+    formula_check(res, model, "utils.application.object_to_decimal", REF_OBJECT_TO_DECIMAL,
+                  "object_to_decimal: floats and ints through Decimal(str(x)), everything else unchanged")
+    return len(res.obligations) - n0
+
+
+def enum_values_unique(res, model, scope=()):
+    """Members of an Enum with equal values are ALIASES: the second name silently denotes the first member (one dict key,
+    one registry entry).  Every Enum class in scope has pairwise distinct member values."""
+    import ast as _ast
+    n = 0
+    for m in model.modules.values():
+        if scope and not m.relpath.startswith(tuple(scope)):
+            continue
+        for c in m.classes.values():
+            if not any(_ast.unparse(b).split(".")[-1] in ("Enum", "IntEnum", "StrEnum") for b in c.base_exprs):
+                continue
+            seen = {}
+            dups = []
+            for st in c.node.body:
+                if isinstance(st, _ast.Assign) and len(st.targets) == 1 and isinstance(st.targets[0], _ast.Name):
+                    key = _ast.dump(st.value)
+                    if key in seen:
+                        dups.append((st.targets[0].id, seen[key], st))
+                    else:
+                        seen[key] = st.targets[0].id
+            n += 1
+            res.ob("R-CONST", f"enum {c.name}: {len(seen)} members with pairwise distinct values", f"{m.relpath}:{c.node.lineno}", ok=not dups)
+            for name, first, st in dups:
+                res.find("R-CONST", c.name, f"{c.name}.{name} has the value of {c.name}.{first}", f"{m.relpath}:{st.lineno}",
+                         f"{c.name}.{name} = {_ast.unparse(st.value)[:60]} repeats the value of {c.name}.{first}: Python makes it an alias, so "
+                         f"results stored under {name} overwrite / are reported as {first}")
+    return n
+
+
+# ---- the write gate ------------------------------------------------------------------------------------------------------
+REF_WRITE_GATE = '''
+def wrapper_func(*args, **kwargs):
+    market = args[0]
+    if not market.is_open:
+        raise DemeterError("closed")
+    result = func(*args, **kwargs)
+    market.has_update = True
+    return result
+'''
+
+
+def write_gate(res, model, rule="R-PHASE"):
+    """write_func's wrapper equals the reference as an ordered ledger: the closed-market rejection comes first; the wrapped
+    operation runs with the caller's arguments; `has_update` is raised only AFTER it returned normally (a rejected
+    operation neither raises the flag nor clears one raised by an earlier accepted operation of the bar)."""
+    import ast as _ast
+    from ..model import AnalysisError
+    from ..rules.formula import nested_func
+    wf = model.func("broker.market.write_func")
+    inner = [n for n in _ast.walk(wf.node) if isinstance(n, _ast.FunctionDef) and n is not wf.node]
+    if len(inner) != 1:
+        raise AnalysisError("write_func: wrapper function not found")
+    return effects_check(res, model, nested_func(model, "broker.market.write_func", inner[0].name), REF_WRITE_GATE,
+                         "write gate: reject when closed, call, then raise has_update (never before, never cleared here)",
+                         [wf.params[0] if wf.params else "func"], ordered=True, keep_raise_effects=True, rule=rule)
